@@ -24,5 +24,24 @@ PROPS = {
     },
 }
 
+PROPS["C19"] = {
+    "variants": ["v2"],
+    "lean": ["Gengo.Props.C19"],
+    "level": "proof",
+    "level_text": "Kernel-checked: option lookup is word membership in the comma-separated list (so near-misses never count), "
+                  "agreement of name/omitted/omitempty with a Lean transcription of encoding/json's field rule for every field name and tag "
+                  "with a valid-or-empty name (guard: not an unnamed inline field, negation proved on the witness), and the String()/LookupJSON "
+                  "round trip for all results that do not combine a name with inline. encoding/json itself is consulted on every generated case "
+                  "(marshalling a reflect.StructOf value) as the independent oracle.",
+    "level_note": "Trusted: Lean kernel, the model (validated by correspondence), reflect.StructTag.Get (its value is an input of the model), "
+                  "the transcription of encoding/json's rule (checked against the real encoding/json by the oracle on every case).",
+    "rule": "field names x json tag values built from name tokens (valid, invalid, '-', empty, non-ASCII, quotes, spaces) and option words "
+            "incl. near-misses (omitemptyx, inlined, ' omitempty', Inline), wrapped into raw struct tags with other keys before/after, "
+            "unescaped, or without a json key; each case runs lookup and render+lookup round trip; thorough adds all tags of <= 4 tokens "
+            "over a 7-token alphabet. Non-trivial = raw tag non-empty; distinct = distinct protocol line.",
+    "assumptions": ["reflect.StructTag.Get is external: the json tag value is computed by package reflect and passed to the model",
+                    "field names are Go identifiers (contain no comma)"],
+}
+
 # properties not claimed, with the reason (kept current by hand)
 NOT_APPLICABLE = {}
